@@ -387,6 +387,34 @@ def _m_loop_once(tree):
     return rewrite_in(tree, "InternalCompiler.compile_symbol", lambda n: isinstance(n, ast.Compare) and norm(n) == "expr.name in self.input_symbols", lambda n: parse_expr("self.is_input_symbol(expr)"))
 
 
+# ---- rules added after seeding round j
+mut("j-latest-def", ["C07", "C01"], "qlasskit/ast2logic/env.py", "a second definition of a known function name is silently dropped")(
+    replace_expr("Env.bind_function", "self.know_type(deff[0])", "self.know_function(deff[0])")
+)
+mut("j-ret-order", ["C07"], "qlasskit/qlassfun.py", "callee expressions handed over sorted by symbol name")(
+    replace_expr("QlassF.to_logicfun", "self.expressions", "sorted(self.expressions, key=lambda e: e[0].name)")
+)
+mut("j-threshold-raw", ["C16", "C05"], "qlasskit/qcircuit/qcircuitwrapper.py", "discard_lower applied to the raw readings")(
+    replace_expr("QCircuitWrapper.decode_counts", "int_counts.items()", "counts.items()")
+)
+mut("j-output-message", ["C17"], "qlasskit/tools/py2bexp.py", "a fixed message is written into the output file")(
+    lambda t: rewrite_in(t, "output_result", lambda n: isinstance(n, ast.Expr) and norm(n) == "file.write(str(result))", lambda n: [parse_stmt("print('Warning: converted to CNF', file=file)"), n])
+)
+mut("j-rebuild-empty", ["C03"], "qlasskit/qcircuit/qcircuitenhanced.py", "gates_computed emptied after the per-expression pass")(
+    replace_stmt("QCircuitEnhanced.uncompute", "self.gates_computed = new_gates_comp[::-1]", "self.gates_computed = []")
+)
+
+
+@mut("j-module-state", ["C13"], "qlasskit/qcircuit/qcircuit.py", "exporter instances cached in a module-level registry")
+def _m_modstate(tree):
+    idx = len([x for x in tree.body if isinstance(x, (ast.Import, ast.ImportFrom, ast.Expr))])
+    tree.body.insert(idx, parse_stmt("_exporters = {}"))
+    fn = find_def(tree, "QCircuit.export")
+    k = 1 if (fn.body and isinstance(fn.body[0], ast.Expr) and isinstance(fn.body[0].value, ast.Constant)) else 0
+    fn.body.insert(k, parse_stmt("_exporters[framework] = _exporters.get(framework, 0) + 1"))
+    return 1
+
+
 # ---- benign twins: (id, description, edit(root_dir) -> None)
 B = []
 
